@@ -112,6 +112,7 @@ type bucket struct {
 	pendingMu     sync.Mutex
 	pending       []PendingOp
 	buildInFlight atomic.Int32
+	drainMu       sync.Mutex
 
 	// Serializes BuildEquality so that two concurrent GetOrBuildBucket
 	// callers cooperate: the winner runs the build, the loser blocks here
@@ -293,6 +294,10 @@ func (b *bucket) EnqueuePending(op PendingOp) {
 // (which is sync.Once-protected), then calls DrainPending. After
 // DrainPending returns, BuildInFlight() is false.
 func (b *bucket) DrainPending() error {
+	// one drainer at a time: a second caller returns only after the first has
+	// applied what it took out of the buffer
+	b.drainMu.Lock()
+	defer b.drainMu.Unlock()
 	for {
 		b.pendingMu.Lock()
 		if len(b.pending) == 0 {
